@@ -73,8 +73,10 @@ def gen_history(r, n):
         if k < 0.3:
             oid = r.choice(idpool + [None, None, None, 5, ["x"]])
             steps.append(("register", target, oid, r.random() < 0.25, r.random() < 0.3))
-        elif k < 0.42:
+        elif k < 0.40:
             steps.append(("unregister_obj", target))
+        elif k < 0.42:
+            steps.append(("unregister_daemon_obj",))
         elif k < 0.54:
             steps.append(("unregister_id", r.choice(idpool + ["@gen", "nosuch", None])))
         elif k < 0.6:
@@ -187,6 +189,18 @@ def run_history(fx, pool, hist, rec, hh):
                     if victim in ("Pyro.Daemon",):
                         continue
                     model.ids.pop(victim, None)
+            elif kind == "unregister_daemon_obj":
+                # the daemon's own object, handed to unregister as an OBJECT (by id is a separate step): ignored or refused, never removed
+                dobj = d.objectsById.get("Pyro.Daemon")
+                try:
+                    d.unregister(dobj)
+                except Exception:
+                    pass
+                now = d.objectsById.get("Pyro.Daemon")
+                if now is None or now is not dobj or getattr(dobj, "_pyroId", None) != "Pyro.Daemon":
+                    return fail("daemon-object-unregistered", "unregister(<the daemon's own object>) removed or damaged it: registry now holds %r under 'Pyro.Daemon', "
+                                "its _pyroId is %r" % (now, getattr(dobj, "_pyroId", None)), step)
+                rec.count("daemon_object_kept")
             elif kind == "unregister_id":
                 oid = st[1]
                 if oid == "@gen":
